@@ -24,13 +24,14 @@ Section C07.
   Definition op_okb (o : op) : Prop :=
     match o with
     | OCBatch items => Forall (fun it : item => In (fst (fst it)) all_chans) items
+    | ODiscard _ => False      (* the paged DiscardForRestore: Proof/MsgStore_discard.v *)
     | _ => In (op_chan o) all_chans
     end.
 
   (* the same without the multi-channel StoreAppendBatch (the C08 uniqueness
      theorems exclude it: C08-K1) *)
   Definition op_ok (o : op) : Prop :=
-    In (op_chan o) all_chans /\ match o with OCBatch _ => False | _ => True end.
+    In (op_chan o) all_chans /\ match o with OCBatch _ | ODiscard _ => False | _ => True end.
 
   Lemma op_ok_b o : op_ok o -> op_okb o.
   Proof. intros [H1 H2]. destruct o; try contradiction; exact H1. Qed.
@@ -123,6 +124,7 @@ Section C07.
       destruct (StoreCheckpointMonotonic F st c (e, lso, hw) visibleHW leo) as [st' r]. exact H.
     - exists s. split; [reflexivity|exact HR].
     - exists s. split; [reflexivity|apply R_reopen; exact HR].
+    - contradiction.
   Qed.
 
   (* ---- dumps ------------------------------------------------------------------------------------------------------- *)
